@@ -626,29 +626,23 @@ def part_boot(rep, pool):
         traces, payloads = record_boot_config(rep, cfg, seeds, call_through=(j == 0))
         if traces:
             jobs.append((cfg, traces, payloads, pool.ex.submit(validate_traces, cfg, traces, f"c17trace{j}")))
-    # binding canary: feed member 0 an index that member 0's bootstrap sample does not hold
-    canary = None
+    # binding canary (independent of the code under test): a hand-made valid trace must be accepted, and the same trace
+    # with one index that member 0's bootstrap sample holds only once used twice must be rejected at the first epoch
+    ccfg = dict(E=2, N=4, TsNum=1, TsDen=1, B=2)
+    good = {"boot": [[0, 1, 2, 2], [3, 3, 1, 0]], "epochs": [[[[2, 0], [1, 3]], [[1, 2], [3, 0]]], [[[2, 2], [3, 3]], [[0, 1], [0, 1]]]]}
+    bad = json.loads(json.dumps(good))
+    bad["epochs"][0][1][0] = [0, 2]  # member 0 now uses index 0 twice in epoch 1 (held once)
+    canary = pool.ex.submit(validate_traces, ccfg, [good, bad], "c17tracecanary")
     if jobs:
-        cfg, traces = jobs[0][0], jobs[0][1]
-        bad = json.loads(json.dumps(traces[0]))
-        own = set(bad["boot"][0])
-        foreign = [v for v in range(cfg["N"]) if v not in own]
-        if foreign:
-            bad["epochs"][0][0][0][0] = foreign[0]
-        else:  # every index is present: hand out a row of member 0's least frequent index only
-            v = min(own, key=bad["boot"][0].count)
-            bad["epochs"][0][0][0] = [v] * cfg["B"]
-            if bad["boot"][0].count(v) >= cfg["B"]:
-                bad = None
-        if bad is not None:
-            canary = pool.ex.submit(validate_traces, cfg, [bad], "c17tracebad")
-        rep.sample({"bootstrap_trace": {"cfg": cfg, "boot": traces[0]["boot"], "epoch1": traces[0]["epochs"][0]}})
+        t0 = jobs[0][1][0]
+        rep.sample({"bootstrap_trace": {"cfg": jobs[0][0], "boot": t0["boot"], "epochs": t0["epochs"][:1]}})
     total_ok = 0
     for cfg, traces, payloads, fut in jobs:
         r, pos = fut.result()
         total_ok += judge_boot_config(rep, cfg, traces, payloads, r, pos)
-    if canary is not None and canary.result()[1][0] != 1:
-        raise tlc.MachineryError("binding canary: corrupted index tensor accepted by EnsembleBootTrace")
+    cpos = canary.result()[1]
+    if cpos != [3, 1]:
+        raise tlc.MachineryError(f"binding canary: EnsembleBootTrace consumed {cpos} events of the (valid, corrupted) hand-made traces, expected [3, 1]")
     rep.traces += total_ok
     return total_ok
 
